@@ -56,7 +56,7 @@ def _committed_consumer(session, uuid):
 
 
 def run_concurrent(ctx, world_fn, reqs, watch_provider=1, watch_consumer=1,
-                   fault_kinds=None):
+                   fault_kinds=None, max_preemptions=None):
     """returns (pre, results, final, sched, writes) where writes[i] is the
     list of observations made at the start of request i's transactions that
     later committed changes"""
@@ -88,6 +88,7 @@ def run_concurrent(ctx, world_fn, reqs, watch_provider=1, watch_consumer=1,
                     st['tables'] = tables
                     writes[i].append(st)
         sched.observe = observe
+        sched.max_preemptions = max_preemptions
         try:
             results = sched.run([(lambda r=r: r.fn(ctx, w)) for r in reqs])
         finally:
